@@ -16,7 +16,7 @@ use serde::{Deserialize, Serialize};
 use crate::{
     engine::{catch, hash64, Env, Outcome, Prop, Tier},
     gen::{key_bytes, key_strategy, pick, val_bytes, val_strategy, KeySpec, StoreCfg, ValSizes, ValSpec},
-    store::{config_json, thread_count, threads_named, Model},
+    store::{config_json, thread_count, Model},
 };
 
 #[derive(Clone, Debug, Serialize, Deserialize)]
@@ -318,6 +318,9 @@ fn exec(c: &CloseCase, env: &Env) -> Outcome {
         }
         let fp_at_drop = dir_fingerprint(&dir);
         let names_at_drop: Vec<String> = fp_at_drop.keys().cloned().collect();
+        // the worker(s) of the store that is about to be dropped, by thread id (a worker that has
+        // been running for a whole cycle certainly carries its name by now)
+        let old_workers = crate::store::tids_named("bitcask-background-tasks");
         drop(store);
         if cy.drop_when_about_to_merge && c.policy_always && c.check_interval_ms <= 200 {
             // let the worker go on: it must notice that the store is closed and not merge
@@ -357,9 +360,10 @@ fn exec(c: &CloseCase, env: &Env) -> Outcome {
             }
         }
         // (2) the worker exits promptly, even if its timer is an hour away
-        let expect_threads = base_threads + if at_once { 1 } else { 0 };
+        // (when the next store was opened at once its own worker and that worker's blocking
+        // threads are alive too, so the old worker is followed by thread id, not by counting)
         let gone = wait_until(Duration::from_secs(5), || {
-            thread_count() <= expect_threads && threads_named("bitcask-background-tasks") <= if at_once { 1 } else { 0 }
+            old_workers.iter().all(|t| !crate::store::tid_alive(*t)) && (at_once || thread_count() <= base_threads)
         });
         if !gone {
             fail = Some((
